@@ -35,7 +35,7 @@ RULE = (
     "eta 5..40, lambda .5..8; Merton sigma 0..0.3, sigma_j .03...2, mu_j 0...1, lambda .5..8; VG sigma .08...3, nu .03...4, "
     "theta -.2...2; CGMY c .2..2, g,m 5..25, y in {-0.5,0.5,1.5}+-0.3 or exactly 0 or 1); spot 20..200, r 0..0.08 (r=0 "
     "with prob. 0.15), d 0..0.05, T 0.1..3; COSPricer defaults n=10000, l=10. BOX (shape / cross-pricer / density oracles "
-    "run only here): |phi_L(T, n*pi/(2(b-a)))| <= 1e-10 (characteristic function of the Lévy part at half the last COS "
+    "run only here; FFT comparisons need E[(S_T/S_0)^4] <= 1000 in addition): |phi_L(T, n*pi/(2(b-a)))| <= 1e-10 (characteristic function of the Lévy part at half the last COS "
     "frequency: excludes finite-activity pure-jump CGMY y<0, CGMY y=0 / VG with small c*T resp. T/nu, sigma~0 "
     "jump-diffusions) and strikes F*[max(0.5,e^-h), min(1.5,e^h)], h = 0.2*(b-a)/2, on uniform grids of 11/15/21 points. "
     "Measured once on the unchanged tree (900 draws, seeds 0..29): inside the box doubling n and/or l changes call/spot "
@@ -53,9 +53,14 @@ NOT_PROVED = [
 ]
 ASSUMPTIONS = [
     "independent references: F = spot*exp((r-d)T), df = exp(-rT) computed by the harness from the model's attributes",
-    "tolerances: parity 1e-10*spot; bounds/monotonicity 1e-9*spot; convexity 1e-8*spot; digital 1e-9; density >= -1e-8 "
-    "(log-density), mass 1 +- 1e-6; COS-FFT 1e-7*spot (worst observed 5.5e-9*spot over seeds 0..5), COS-BS 1e-9*spot (worst 4e-13), "
-    "VG-CGMY 1e-9*spot (worst 2e-14), vector-scalar 1e-11*spot; model correspondence 2^-40 of the cancellation-aware scale",
+    "FFT comparisons (COS ~ FFT, BS ~ FFT) only when additionally E[(S_T/S_0)^4] <= 1000: with its fixed eta = 0.25, alpha = 1.5 the "
+    "FFT pricer aliases for heavy right tails / very large variance (measured: HEM eta1 = 5.15, T = 2.69 is off by 3e-3*spot, "
+    "CGMY y = 1.77 with sqrt(c2) = 2.6 returns negative calls); inside: worst |COS - FFT| = 1.5e-8*spot over 700 draws",
+    "tolerances (worst observed on the unchanged tree over quick seeds 0..5 and thorough seeds 0..1 in brackets): parity 1e-10*spot "
+    "[6e-14 abs]; bounds / monotone / call-spread 1e-9*spot [0]; convexity 1e-8*spot [0]; digital in [0,df], decreasing 1e-9 [0]; "
+    "log-density >= -1e-8 [5.5e-13], mass 1 +- 1e-6 [2.5e-11]; digital/df vs tail mass 1e-6 [1.8e-8]; COS-FFT 2e-7*spot [1.3e-8*spot]; "
+    "COS-BS 1e-10*spot [1e-15*spot]; VG-CGMY 1e-9*spot [6e-11*spot]; vector-scalar 1e-11*spot [0]; model correspondence 2^-40 of the "
+    "cancellation-aware scale",
 ]
 TRUSTED = ["numpy FFT / interp / trigonometric kernels, scipy.stats.norm.cdf, scipy.integrate.simpson (density mass)"]
 
@@ -266,7 +271,7 @@ def fft_probes(ctx, B, call, put):
         raise
     fp = np.asarray(fft.put(K, T))
     ref = B.df * (B.F - K)
-    ctx.count("c18.fft", case, branch=case["fam"] + (":box" if B.inbox else ":out"))
+    ctx.count("c18.fft", case, nontrivial=B.fftbox, branch=case["fam"] + (":box" if B.inbox else ":out"))
     err = np.max(np.abs(fc - fp - ref))
     note("fft.parity", err, 1e-10 * spot)
     if err > 1e-10 * spot:
@@ -297,11 +302,11 @@ def bs_probes(ctx, B, call, put, dig, fc):
     ref = df * (F - K)
     bad = None
     note("bs.parity", np.max(np.abs(c - p - ref)), 1e-11 * spot)
-    note("bs.cos", np.max(np.abs(c - call)), 1e-9 * spot)
+    note("bs.cos", np.max(np.abs(c - call)), 1e-10 * spot)
     note("bs.digital", np.max(np.abs(g - dig)), 1e-9)
     if np.max(np.abs(c - p - ref)) > 1e-11 * spot or np.max(np.abs(f - ref)) > 1e-11 * spot:
         bad = "closed-form parity / forward"
-    elif np.max(np.abs(c - call)) > 1e-9 * spot or np.max(np.abs(p - put)) > 1e-9 * spot:
+    elif np.max(np.abs(c - call)) > 1e-10 * spot or np.max(np.abs(p - put)) > 1e-10 * spot:
         bad = "closed form vs COS (call/put)"
     elif np.max(np.abs(g - dig)) > 1e-9:
         bad = "closed form vs COS (digital)"
@@ -513,7 +518,7 @@ def run_case(ctx, case, rng, heavy=True):
 def run(ctx):
     import random
     rng = ctx.rng
-    per_family = ctx.n(5, 40)
+    per_family = ctx.n(7, 40)
     # defaults of every family first
     for fam in FAMS:
         case = dict(kind="main", fam=fam, params=dict(sigma=0.2) if fam == "bs" else {}, spot=100.0, r=0.02, d=0.01, T=1.0, m=21)
